@@ -12,7 +12,7 @@
    about SHA-256 or JSON. *)
 From Coq Require Import List NArith Bool Permutation.
 Import ListNotations.
-From Oras Require Import Base.Prelude Generated.GC07 Model.GraphMem Model.GraphStore Model.IndexLTS Model.StoreLTS Model.IndexAllLTS Model.Links Proofs.GraphMem Proofs.StoreLTS Proofs.IndexAllLTS Proofs.Links Proofs.GraphStore Proofs.IndexLTS.
+From Oras Require Import Base.Prelude Generated.GC07 Model.GraphMem Model.GraphStore Model.IndexLTS Model.StoreLTS Model.IndexAllLTS Model.GraphMemSrc Model.Links Proofs.GraphMem Proofs.StoreLTS Proofs.IndexAllLTS Proofs.Links Proofs.GraphStore Proofs.IndexLTS.
 
 (* The invariants written in the comments of graph.Memory hold after every history of
    Index / Remove / IndexAll / fresh-graph operations, with content appearing in and
@@ -22,6 +22,13 @@ Theorem C07_inv :
     Inv (ctab ct) (s_g (fst (run ct fuel init_state ops))).
 Proof. exact history_inv. Qed.
 Print Assumptions C07_inv.
+
+(* the statement order of graph.Memory.index / Remove / Predecessors that Model/GraphMem.v
+   mirrors (Successors before the lock, the whole update under the lock, entry deleted when it
+   becomes empty, ...) is the one in internal/graph/memory.go as re-read on this run *)
+Theorem C07_graphmem_source_shape_src : graphmem_source_shape = true.
+Proof. exact graphmem_source_shape_true. Qed.
+Print Assumptions C07_graphmem_source_shape_src.
 
 (* Under the invariant, Predecessors(n) is exactly -- no omission, no extra, no
    duplicate -- the set of nodes in the memory whose successors contain n, whether or
